@@ -234,7 +234,7 @@ class ProgGen:
             choices += ["index", "index"]
         if "core" in self.features:
             # the fragment of Model/BitSem.lean
-            choices = ["if", "block"] + (["cmp", "cmp", "eq", "logic", "logic", "not", "castbool"] if k == "bool" else ["arith", "arith", "arith", "cast"] + (["unary"] if signed(ty) else []))
+            choices = ["if", "block"] + (["cmp", "cmp", "eq", "logic", "logic", "not", "castbool"] if k == "bool" else ["arith", "arith", "arith", "cast", "shift"] + (["unary"] if signed(ty) else []))
         elif k == "bool":
             choices += ["cmp", "cmp", "eq", "logic", "logic", "not", "castbool"]
         elif k == "int":
@@ -272,7 +272,7 @@ class ProgGen:
         return E(f"{ta} {op} {tb}", ["bin", op, opty, a.ast, b.ast], lvl)
 
     def e_arith(self, ty, d, pure):
-        op = self.rng.choice(["+", "-"] if "core" in self.features else ["+", "-", "*", "/", "%", "+", "-"])
+        op = self.rng.choice(["+", "-", "+", "-", "*", "/", "%"] if "core" in self.features else ["+", "-", "*", "/", "%", "+", "-"])
         a = self.expr(ty, d - 1, pure)
         if op in ("/", "%") and self.rng.random() < 0.7:
             lo, hi = T.int_range(ty["t"])
@@ -281,6 +281,16 @@ class ProgGen:
             b = self.val_expr(ty, self.rng.choice([0, 1, 2, 3] + ([-1, -3] if signed(ty) else [])))
         else:
             b = self.expr(ty, d - 1, pure)
+        if op == "*":
+            # `x * -2^j` with the exact product MIN is the recorded C03 finding (multiplication by a negative literal
+            # adds first and negates afterwards): such literals are not generated here, C03 reports that case itself
+            def odd_one_out(e):
+                if isinstance(e.ast, list) and e.ast[0] == "int" and e.ast[1] < -1 and (-e.ast[1]) & (-e.ast[1] - 1) == 0:
+                    return self.val_expr(ty, e.ast[1] + 1)
+                return e
+            a, b = odd_one_out(a), odd_one_out(b)
+            if "core" in self.features and (a.ast[0] == "int" or b.ast[0] == "int"):
+                op = "+"        # multiplication by a literal is compiled by another route (outside Model/BitSem.lean)
         return self.binop(op, ty, a, b)
 
     def e_bit(self, ty, d, pure):
@@ -630,13 +640,15 @@ class ProgGen:
         e = self.expr(ty, d, True)
         ops = []
         if is_int(ty):
-            ops = ["+", "-"] if "core" in self.features else ["+", "-", "*", "/", "%", "^", "&", "|", "<<", ">>"]
+            ops = ["+", "-", "*", "/", "%", "<<", ">>"] if "core" in self.features else ["+", "-", "*", "/", "%", "^", "&", "|", "<<", ">>"]
         elif ty["k"] == "bool":
             ops = ["^", "&", "|"]
         if ops and self.rng.random() < 0.4:
             op = self.rng.choice(ops)
             if op in ("<<", ">>"):
                 e = self.val_expr(U8, self.rng.choice([0, 1, 3]))
+            if op == "*" and "core" in self.features and e.ast[0] == "int":
+                op = "+"
             cur = ["var", v["name"]]
             for st in path:
                 cur = {"i": lambda c, s: ["index", c, s[1]], "t": lambda c, s: ["tget", c, s[1]], "f": lambda c, s: ["field", c, s[1]]}[st[0]](cur, st)
